@@ -14,7 +14,7 @@ import re
 
 S = Sym
 PROPERTY = 'C06'
-PROPS_MODULES = ['C06', 'C06b', 'C06c', 'C01c', 'C06d', 'C06e', 'C06f', 'C06g', 'C06h']
+PROPS_MODULES = ['C06', 'C06b', 'C06c', 'C01c', 'C06d', 'C06e', 'C06f', 'C06g', 'C06h', 'C06j', 'C06k', 'C18b']
 ASSUMPTIONS = ['the printed text is compared with the model printer token by token, numeric tokens by value (Python float formatting of '
                'time bounds is outside the exact model)']
 
@@ -126,7 +126,7 @@ def run(ctx):
             rt['checked'] += 1
             flags = [str(v) == '1' for v in x[1:6]]
             rt['printable'] += flags[0]; rt['toks_equal'] += flags[1]; rt['read_back'] += flags[2]
-            if len(flags) > 3:      # expressions / predicates: hypotheses of the text-level theorems (Props/C06g-h)
+            if len(flags) > 3:      # hypotheses of the text-level theorems (Props/C06g-h expressions/predicates, C06k properties)
                 rt['literal_tokens_complete'] += flags[3]; rt['model_text_is_chars'] += flags[4]
             if not all(flags):
                 disagreements.append({'input': {'entry': entry, 'source': src}, 'op': 'rtcheck',
